@@ -17,7 +17,7 @@ OUT = os.path.join(VERIF, "out")
 HARNESS = os.path.join(VERIF, "harness")
 HARNESS_NOSTD = os.path.join(VERIF, "harness_nostd")
 GUARD = "rustaudio_dasp_verif"
-NCPU = 16
+NCPU = int(os.environ.get("VERIF_NCPU", "16"))
 
 # ---------------------------------------------------------------------------
 # deterministic PRNG (xorshift64*), every random choice of a run derives from it
